@@ -12,8 +12,8 @@ TRUSTED = [
     "hand-written models Prep.lean (concrete) and PrepSpec.lean (abstract machine + reference evaluation); Prep.lean tied to preprocessor.rs by exhaustive-small and random differential correspondence",
     "lexer model Lex.lean for the hypothesis that directive text lexes into directive tokens (C14 / correspondence)",
 ]
-RULE = ("all sequences up to length N (4 quick, 6 thorough) over {#ifdef X, #ifdef Y, #ifndef X, #ifndef Y, #else, #endif, "
-        "#define X, #define Y, marker statement}, one per line; directives without macro name; random deeper nestings inside "
+RULE = ("all sequences up to length N (4 quick, 7 thorough) over {#ifdef X, #ifdef Y, #ifndef X, #ifndef Y, #else, #endif, "
+        "#define X, #define Y, marker statement, lexically invalid token}, one per line; directives without macro name; random deeper nestings inside "
         "generated programs; a case is non-trivial if it contains at least one conditional; all sequences are distinct")
 FINISH = dict(level="proof", trusted_base=TRUSTED, rule=RULE)
 # M = a marker declaration; J = a lexically invalid token on a line of its own (an unterminated string): in an enabled region it is
@@ -87,7 +87,7 @@ def run(ck):
     if not core.ensure_built(ck):
         return ck.finish(**FINISH)
     quick = ck.tier == "quick"
-    n = 4 if quick else 6
+    n = 4 if quick else 7     # the property says: exhaustively up to length 7
     total = 0
     batch = []
 
